@@ -269,12 +269,17 @@ TUnreq ==
        ELSE LET o == Obs(Ev.post)
                 p == sm.un
                 pre == sm.pre
+                failed == "ok" \in DOMAIN Ev /\ Ev.ok = 0        \* the call raised (a provider fault during the upload-first step)
             IN /\ Check(Has(pre[2], p) => (Has(o[2], p) /\ o[2][p] # DIR), "UnsyncKeepsRemote")
-               /\ Check(~Has(o[1], p), "UnsyncRemovesLocal")
-               \* a local edit the remote had not received yet must be there now
-               /\ Check(IF p \in sm.made /\ Has(pre[1], p) /\ Has(pre[2], p) /\ pre[1][p] # pre[2][p]
-                        THEN Has(o[2], p) /\ o[2][p] = pre[1][p] ELSE TRUE, "UnsyncUploadsNewerFirst")
-               /\ sm' = [sm EXCEPT !.un = <<>>, !.made = @ \ {p}]
+               /\ IF failed
+                    THEN \* an un-request that could not upload the newer local edit must leave the local copy where it is
+                         /\ Check(Has(pre[1], p) => (Has(o[1], p) /\ o[1][p] = pre[1][p]), "FailedUnsyncKeepsLocal")
+                         /\ sm' = [sm EXCEPT !.un = <<>>, !.req = @ \cup {p}]
+                    ELSE /\ Check(~Has(o[1], p), "UnsyncRemovesLocal")
+                         \* a local edit the remote had not received yet must be there now
+                         /\ Check(IF p \in sm.made /\ Has(pre[1], p) /\ Has(pre[2], p) /\ pre[1][p] # pre[2][p]
+                                  THEN Has(o[2], p) /\ o[2][p] = pre[1][p] ELSE TRUE, "UnsyncUploadsNewerFirst")
+                         /\ sm' = [sm EXCEPT !.un = <<>>, !.made = @ \ {p}]
                /\ tr' = o
   /\ UNCHANGED <<phase, corrupt, base0, kase, nres, pfault, notif, cur, aging, walked, xf, runA>> /\ LedgerFrame
   /\ lastUser' = IF Ev.ev = "UnreqEnd" THEN [lastUser EXCEPT ![1] = Obs(Ev.post)[1]] ELSE lastUser
